@@ -35,6 +35,12 @@ type c08In struct {
 	// NegotiateFirst: the Child SA objects of all steps are created (negotiated) up front and keyed afterwards, in step
 	// order - several Child SAs of one IKE SA are in flight at the same time
 	NegotiateFirst bool `json:"negotiate_first"`
+	// Carved: the nonces of all steps are views into one buffer (back to back), handed to the library without a private copy
+	Carved bool `json:"nonces_share_one_buffer,omitempty"`
+	// Template: (with NegotiateFirst) steps with the same transforms use by-value copies of ONE negotiated ChildSAKey
+	Template bool `json:"children_copied_from_one_negotiated_template,omitempty"`
+	// EmptyKeyFields: the Child SA objects start with empty, non-nil key fields instead of nil ones
+	EmptyKeyFields bool `json:"key_fields_empty_not_nil,omitempty"`
 }
 
 func c08NewSA(in c08In) (*security.IKESAKey, []byte, error) {
@@ -63,6 +69,9 @@ var c08History = probe.Define("C08", "history", func(t *rapid.T) c08In {
 	}
 	in.ChildViaProposal = rapid.IntRange(0, 2).Draw(t, "childviaproposal") == 2
 	in.NegotiateFirst = rapid.IntRange(0, 3).Draw(t, "negotiatefirst") == 3
+	in.Template = in.NegotiateFirst && rapid.Bool().Draw(t, "template")
+	in.Carved = rapid.IntRange(0, 2).Draw(t, "carved") == 2
+	in.EmptyKeyFields = rapid.IntRange(0, 3).Draw(t, "emptykeyfields") == 3
 	n := gen.Len(t, "nsteps", 1, 200, 1, 2, 100, 200)
 	for i := 0; i < n; i++ {
 		in.Steps = append(in.Steps, c08Step{Encr: rapid.IntRange(0, 2).Draw(t, "encr"), Integ: rapid.IntRange(0, 3).Draw(t, "integ"),
@@ -79,24 +88,63 @@ var c08History = probe.Define("C08", "history", func(t *rapid.T) c08In {
 	labels := []string{"prf:" + ref.Prfs[in.Prf].Name}
 	var negotiated []*security.ChildSAKey
 	if in.NegotiateFirst {
+		templates := map[[2]int]*security.ChildSAKey{}
 		for _, st := range in.Steps {
-			negotiated = append(negotiated, childSA(st.Encr, st.Integ))
+			c := childSA(st.Encr, st.Integ)
+			if in.Template {
+				// one negotiation, several Child SAs with the same transforms: each gets its own copy of the negotiated value
+				k := [2]int{st.Encr, st.Integ}
+				if templates[k] == nil {
+					templates[k] = c
+				}
+				cc := *templates[k]
+				c = &cc
+			}
+			negotiated = append(negotiated, c)
 		}
 		labels = append(labels, "negotiated-first")
+		if in.Template {
+			labels = append(labels, "children-copied-from-template")
+		}
 	}
+	nonces := make([][]byte, len(in.Steps))
+	unchanged := func() error { return nil }
+	if in.Carved {
+		var parts [][]byte
+		for _, st := range in.Steps {
+			parts = append(parts, st.Nonce)
+		}
+		nonces, unchanged = probe.Carve(parts...)
+		labels = append(labels, "nonces-share-one-buffer")
+	} else {
+		for i, st := range in.Steps {
+			nonces[i] = append([]byte(nil), st.Nonce...)
+		}
+	}
+	type heldKeys struct {
+		got, want ref.ChildKeys
+	}
+	var held []heldKeys // keys handed out earlier: the Child SAs are in use while later ones are derived
 	for i, st := range in.Steps {
 		F, _, err := c08NewSA(in) // freshly constructed copy of the IKE SA
 		if err != nil {
 			return probe.Fail("building a fresh IKE SA: %v", err)
 		}
 		var kL ref.ChildKeys
+		c := childSA(st.Encr, st.Integ)
 		if in.NegotiateFirst {
-			kL, err = deriveChildOn(negotiated[i], L, st.Nonce)
-		} else {
-			kL, err = deriveChild(L, st.Encr, st.Integ, st.Nonce)
+			c = negotiated[i]
 		}
+		if in.EmptyKeyFields {
+			c.InitiatorToResponderEncryptionKey, c.InitiatorToResponderIntegrityKey = []byte{}, []byte{}
+			c.ResponderToInitiatorEncryptionKey, c.ResponderToInitiatorIntegrityKey = []byte{}, []byte{}
+		}
+		kL, err = deriveChildRaw(c, L, nonces[i])
 		if err != nil {
 			return probe.Fail("derivation %d on the long-lived SA: %v", i+1, err)
+		}
+		if err := unchanged(); err != nil {
+			return probe.Fail("derivation %d (nonces of all exchanges held back to back in one buffer): %v", i+1, err)
 		}
 		kF, err := deriveChild(F, st.Encr, st.Integ, st.Nonce)
 		if err != nil {
@@ -109,6 +157,16 @@ var c08History = probe.Define("C08", "history", func(t *rapid.T) c08In {
 		}
 		if !childEqual(kL, kF) {
 			return probe.Fail("derivation %d on the long-lived SA differs from the derivation on a fresh copy", i+1)
+		}
+		held = append(held, heldKeys{kL, want})
+		if len(held) > 16 {
+			held = held[1:]
+		}
+		for j, h := range held[:len(held)-1] {
+			if !childEqual(h.got, h.want) {
+				return probe.Fail("the keys of an earlier Child SA (derivation %d) changed when derivation %d was performed: Child SAs of one IKE SA share key storage",
+					i+1-(len(held)-1-j), i+1)
+			}
 		}
 		il := 0
 		if st.Integ < 3 {
@@ -136,6 +194,9 @@ var c08History = probe.Define("C08", "history", func(t *rapid.T) c08In {
 	}
 	if in.ChildViaProposal {
 		labels = append(labels, "child-descriptors-via-proposal")
+	}
+	if in.EmptyKeyFields {
+		labels = append(labels, "key-fields-empty-not-nil")
 	}
 	labels = append(labels, fmt.Sprintf("steps>=2:%v", len(in.Steps) >= 2))
 	return probe.Outcome{NonTrivial: len(in.Steps) >= 2, Labels: labels}
